@@ -44,6 +44,7 @@ type hdStats struct {
 	FailedStarts  int            `json:"hands_the_backend_refused_to_create"`
 	ByLeaves      int            `json:"bystander_listed_first_left_mid_hand"`
 	ClosedExtends int            `json:"extensions_asked_right_after_a_round_closed"`
+	SlowAnswers   int            `json:"requests_answered_after_a_pause"`
 	MaxSteps      int            `json:"max_backend_calls_per_hand"`
 	Distinct      int            `json:"distinct_histories"`
 	Samples       []string       `json:"samples"`
@@ -67,6 +68,7 @@ func mergeHD(d, s *hdStats) {
 	d.FailedStarts += s.FailedStarts
 	d.ByLeaves += s.ByLeaves
 	d.ClosedExtends += s.ClosedExtends
+	d.SlowAnswers += s.SlowAnswers
 	d.Withheld += s.Withheld
 	d.LateExtends += s.LateExtends
 	if s.MaxSteps > d.MaxSteps {
@@ -547,6 +549,12 @@ func (h *hdHist) playHandSteps(maxSteps int) bool {
 				continue
 			}
 			h.answered = gs.UpdatedAt
+			if h.r.Intn(4) == 0 {
+				// the players take a moment to answer: whatever the engine still does on its own after publishing the request
+				// (notifications of the previous step, clean-up) has run by then
+				time.Sleep(time.Duration(5+h.r.Intn(20)) * time.Millisecond)
+				h.st.SlowAnswers++
+			}
 			kind := "ready"
 			if gs.Status.CurrentEvent != "ReadyRequested" {
 				kind = "pay"
